@@ -4,8 +4,10 @@
 (* action worker owe the handler, at the level of paths.                   *)
 (*                                                                         *)
 (* A scenario is a sequence of file operations in and next to a watched    *)
-(* tree (fsreal_driver; native or poll watcher), the events the source     *)
-(* made for them (numbered where they enter the queue), the verdict the    *)
+(* tree (fsreal_driver; native or poll watcher) - and of signals sent to   *)
+(* the program and of the keyboard source reaching end-of-file, which are  *)
+(* "operations" on the pseudo paths signal/<NAME> and keyboard/eof -, the  *)
+(* events the sources made for them (numbered where they enter the queue), the verdict the    *)
 (* filter gave each, and the batches the handler saw.  Required:           *)
 (*   - events are numbered without gaps and none is lost on the way;       *)
 (*   - an event only names paths inside the watched tree (the watcher may  *)
@@ -38,7 +40,8 @@ ClassOf(p) ==
     LET cs == {o.cls : o \in {o \in Range(ops) : o.path = p}} IN
     IF cs = {} THEN 0                \* a directory above a touched path
     ELSE CHOOSE c \in cs : \A d \in cs : c >= d
-Inside(p) == Len(p) >= 1 /\ p[1] = "root"
+\* inside the watched tree - or one of the other sources: a signal sent to the program, keyboard end-of-file
+Inside(p) == Len(p) >= 1 /\ p[1] \in {"root", "signal", "keyboard"}
 
 VerdictOf(cs) == IF 2 \in cs THEN "error" ELSE IF 1 \in cs THEN "reject" ELSE "pass"
 
